@@ -129,9 +129,14 @@ namespace embedded_pairing::wkdibe {
                 k++;
             } else if (x != sk.l && sk.b[x].idx == i) {
                 if (!attrs.omitAllFromKeysUnlessPresent) {
+                    /*
+                     * Build the element in a temporary: qualified may be the
+                     * same object as sk (j never runs ahead of x).
+                     */
+                    temp.multiply(params.h[i], t);
+                    temp.add(temp, sk.b[x].hexp);
                     qualified.b[j].idx = i;
-                    qualified.b[j].hexp.multiply(params.h[i], t);
-                    qualified.b[j].hexp.add(qualified.b[j].hexp, sk.b[x].hexp);
+                    qualified.b[j].hexp.copy(temp);
                     j++;
                 }
                 x++;
@@ -144,15 +149,18 @@ namespace embedded_pairing::wkdibe {
         qualified.l = j;
         qualified.signatures = sk.signatures;
         if (qualified.signatures) {
-            qualified.bsig.multiply(params.hsig, t);
-            qualified.bsig.add(qualified.bsig, sk.bsig);
+            temp.multiply(params.hsig, t);
+            temp.add(temp, sk.bsig);
+            qualified.bsig.copy(temp);
         } else {
             qualified.bsig.copy(G1::zero);
         }
         product.multiply(product, t);
         qualified.a0.add(qualified.a0, product);
-        qualified.a1.multiply_frobenius(params.g, tx);
-        qualified.a1.add(qualified.a1, sk.a1);
+        G2 temp2;
+        temp2.multiply_frobenius(params.g, tx);
+        temp2.add(temp2, sk.a1);
+        qualified.a1.copy(temp2);
     }
 
     void nondelegable_keygen(SecretKey& sk, const Params& params, const MasterKey& msk, const AttributeList& attrs) {
